@@ -7,6 +7,10 @@ UNIT = {
     "env": [os.path.join(ENV, "edition_env.rs")],
     "declared_trusted": {r"external_body": 4},
     "items": [
+        # C14 / C12 ("an unsupported edition/target pair yields its error"): choosing a target leaves the edition the user chose alone -
+        # whatever order the two builder calls come in, Builder::generate sees both and rejects the pair (sync_features below)
+        {"kind": "fn", "file": "bindgen/lib.rs", "name": "set_rust_target", "impl": r"^impl BindgenOptions$", "impl_header": "impl BindgenOptions", "impl_name": "BindgenOptions",
+         "ensures": ["final(self).rust_target == rust_target", "final(self).rust_edition == old(self).rust_edition", "final(self).rust_features == old(self).rust_features"]},
         {"kind": "fn", "file": "bindgen/lib.rs", "name": "sync_features", "impl": r"^impl Builder$", "impl_nth": 0, "ret": "r",
          "closure": {"enclosing": "generate", "anchor": "self.options.rust_features = match self.options.rust_edition {", "nth": 0,
                      "signature": "fn sync_features(self_: &Builder) -> (r: Result<RustFeatures, BindgenError>)",
